@@ -653,13 +653,13 @@ PROPERTIES["C06"] = {
     "outside": ["convexity inequality for objects whose value involves exp/log (over-approximated transcendental functions make the inequality undecidable; reported as skipped per path)",
                 "constraint kinds: gradient/definition covered by C05; linear/gboost objectives: C09", "dims > 3"],
     "units": [
-        {"engine": "sre", "harness": "C06_functions", "sources": ["C06_functions.cpp"],
+        {"engine": "sre", "harness": "C06_functions", "sources": ["C06_functions.cpp"], "concrete_strict": True,
          "quick": ["fn=%s;d=2" % f for f in _FN_BASE] + ["fn=%s;d=2" % f for f in ("mse+ridge[1]", "mse+lasso[100]", "mse+elasticnet[1,1]", "mae+elasticnet[1,1]", "hinge+elasticnet[1,1]", "cauchy+ridge[1]", "logistic+lasso[1]")] +
                   ["fn=%s;d=8;cvx=0" % f for f in _FN_SMOOTH_HD] + ["fn=powell;d=4;cvx=0", "fn=maxq;d=8;cvx=0", "fn=chained_lq;d=8;cvx=0", "fn=powell;d=16;cvx=0", "fn=rosenbrock;d=16;cvx=0"],
          "thorough": ["fn=%s;d=%d" % (f, d) for f in _FN_BASE + _FN_ENET for d in (1, 2, 3)] + ["fn=%s;d=%d;cvx=0" % (f, d) for f in _FN_SMOOTH_HD for d in (4, 8, 12, 16, 32)] + ["fn=maxq;d=8;cvx=0", "fn=chained_lq;d=8;cvx=0"],
          "budget": {"quick": {"deadline_s": 45, "max_paths": 3000, "query_s": 8}, "thorough": {"deadline_s": 300, "max_paths": 50000, "query_s": 20}},
          "encoded": ["nano::function_t::vgrad", "function_<id>_t::do_vgrad for every registered id", "nano::function_t::{convex, strong_convexity, make}"]},
-        {"engine": "sre", "harness": "C06_losses", "sources": ["C06_losses.cpp"],
+        {"engine": "sre", "harness": "C06_losses", "sources": ["C06_losses.cpp"], "concrete_strict": True,
          "quick": ["loss=%s;k=2;pat=1" % l for l in _LOSSES] + ["loss=%s;k=1;pat=0" % l for l in ("mse", "mae", "m-hinge", "m-logistic", "s-classnll", "pinball")] +
                   ["loss=%s;k=3;pat=3;multi=1" % l for l in _LOSSES if l.startswith("s-")],
          "thorough": ["loss=%s;k=%d;pat=%d" % (l, k, p) for l in _LOSSES for (k, p) in ((1, 0), (1, 1), (2, 0), (2, 1), (2, 2), (3, 1), (3, 5))] +
@@ -728,5 +728,51 @@ PROPERTIES["C03"] = {
          "budget": {"quick": {"deadline_s": 40, "max_paths": 4000, "query_s": 5}, "thorough": {"deadline_s": 600, "max_paths": 200000, "query_s": 20}},
          "encoded": ["nano::solver_rqb_t::do_minimize", "nano::base_solver_fpba_t<nesterov_sequence1_t / 2_t>::do_minimize", "nano::bundle_t::{make, moveto, append, x, fx, gx, smeared_s}", "nano::proximity_t::{make, update, miu}",
                      "nano::nesterov_sequence1_t / 2_t::{update, reset}", "nano::solver_state_t::{update, update_if_better, update_calls}", "nano::solver_t::done", "csearch_t::search replaced by an arbitrary curve search (link time)"]},
+    ],
+}
+
+_C18_SOLVERS = _LS_SOLVERS + _NLS_SOLVERS + ["rqb", "fpba1", "fpba2"]
+PROPERTIES["C18"] = {
+    "level": "model_checking",
+    "level_text": "bounded: the REAL library objects are used through their const interface by several threads of the interpreted program (std::threads of the harness and the workers of the real thread pool owned by the dataset) under the SBV interpreter's thread model - every std::thread an interpreter context, the thread that performs the next visible operation a symbolic choice explored by forking within the preemption bound - with a happens-before DATA-RACE analysis of every load / store / memcpy / memset of interpreted code (vector clocks; edges: program order, thread start / join, mutex unlock -> lock, release -> acquire atomics and fences, static-initialisation guards): on every explored schedule no two conflicting accesses to the same byte are unordered, and every concurrent call returns bit-identical results to the same call executed alone. Subjects: every loss, every deterministic solver (own function object per thread), dataset flatten / select / targets, the flatten / targets / select iterators, the linear and the three gradient-boosting objectives with their per-thread accumulators, fitting and predicting with every weak learner over a K-worker pool. A planted race (witness configuration) must be reported on every run",
+    "level_note": SBV_NOTE + "; thread model: engine/sbv/sbv_threads.inc, race analysis: engine/sbv/sbv_race.inc; counter-examples (schedule + access pair) are replayed by the interpreter in concrete mode",
+    "technique": "bounded symbolic exploration of thread schedules of the real code at the LLVM-IR level (own interpreter; schedule choices are symbolic variables of the path condition, concretised by forking) with a happens-before (vector-clock) data-race assertion on every memory access and bit-exact result obligations; z3 decides path feasibility and obligations where data is symbolic",
+    "explanation": "C18: nano::loss_t::{error,value,vgrad}, nano::solver_t::minimize, nano::dataset_t::{flatten,select,targets}, nano::{targets,flatten,select}_iterator_t::loop, nano::linear::function_t, nano::gboost::{bias,scale,grads}_function_t, nano::wlearner_t::{fit,predict} run by 2-3 threads / a 2-3 worker pool of the interpreted program.",
+    "assumptions": ["thread model: context switches at visible operations only (thread start / exit / join, mutex lock, condition wait / notify, future wait); one explored schedule stands for every schedule with the same synchronisation order as far as the race verdict is concerned (happens-before is independent of the order in which unordered accesses ran)",
+                    "accesses performed inside functions that run natively (libstdc++.so / libc bodies: string, stream and allocator internals; listed per run as native: labels) are not seen by the race analysis; memcpy / memmove / memset are seen",
+                    "thread-local variables of the interpreted program are shared by all interpreter contexts (none in libnano); accesses to them are left out of the analysis",
+                    "__libc_single_threaded is cleared when the first interpreted thread starts (as glibc does), so libstdc++ takes its atomic paths",
+                    "inputs are concrete pseudo-values (the subject is the schedule and the sharing, not the arithmetic); pool_t::max_size() replaced by the configured K; default seed fixed",
+                    "atomic release / acquire edges are joined per address (over-approximation of release sequences: may hide a race, never reports a false one)"],
+    "bounds": {"threads": "T <= 3 harness threads, K <= 3 pool workers", "samples": "n <= 6 (batch 2: <= 3 tasks per loop)", "solver budget": "max_evals 30..40, d <= 3",
+               "schedules": "preemption bound 1 (quick) / 2 (thorough); switches at blocking operations are free (unit C18_tune: at most 2 / 3 forking choices at blocking operations per path, then the lowest-numbered runnable thread continues); configurations are exhaustive within the bounds unless the evidence says truncated"},
+    "outside": ["whole fit() of linear / gradient-boosting models (the shared pieces - tuning driver with a recording model callback, dataset iterators, objectives, weak-learner fitting, solver - are covered one by one)", "gradient-sampling solvers (randomised)", "races inside native library bodies", "more than 3 threads / workers, schedules beyond the preemption bound", "weak memory effects beyond the happens-before relation (an unordered pair is reported, its possible outcomes are not enumerated)", "CPU affinity, timing"],
+    "units": [
+        {"engine": "sbv", "harness": "C18_shared", "sources": ["C18_shared.cpp"], "replay_with": "interpreter",
+         "witness": ["mode=selftest;T=2"], "witness_label": "no data race",
+         "quick": ["mode=loss;T=3;n=3;loss=%s" % l for l in ("mse", "s-classnll", "m-hinge")] +
+                  ["mode=solver;T=3;solver=lbfgs;fn=rosenbrock;d=3;evals=40", "mode=solver;T=2;solver=cgd-pr;fn=sphere;d=2", "mode=solver;T=2;solver=bfgs;fn=sphere;d=2", "mode=solver;T=2;solver=ellipsoid;fn=sphere;d=2",
+                   "mode=solver;T=2;solver=osga;fn=sphere;d=2", "mode=solver;T=2;solver=rqb;fn=maxq;d=3;evals=40", "mode=solver;T=2;solver=fpba1;fn=sphere;d=2"] +
+                  ["mode=views;T=2;K=2;n=6", "mode=iter;K=2;n=6;batch=2", "mode=iter;K=2;n=6;batch=2;cache=1", "mode=linear;K=2;n=4;batch=2", "mode=gboost;K=2;n=4;batch=2"] +
+                  ["mode=wlearner;K=2;n=6;T=2;wl=%s" % w for w in ("stump", "dense-table", "dtree")],
+         "thorough": ["mode=loss;T=3;n=3;loss=%s" % l for l in _LOSSES] +
+                     ["mode=solver;T=2;solver=%s;fn=sphere;d=2" % s for s in _C18_SOLVERS] + ["mode=solver;T=3;solver=lbfgs;fn=rosenbrock;d=3;evals=40", "mode=solver;T=2;solver=rqb;fn=maxq;d=3;evals=40", "mode=solver;T=3;solver=cgd-pr;fn=trid;d=3;evals=40"] +
+                     ["mode=views;T=2;K=2;n=6", "mode=views;T=3;K=2;n=6", "mode=iter;K=2;n=6;batch=2", "mode=iter;K=3;n=6;batch=2", "mode=iter;K=2;n=6;batch=2;cache=1", "mode=iter;K=2;n=6;batch=1",
+                      "mode=linear;K=2;n=6;batch=2", "mode=linear;K=2;n=6;batch=2;loss=m-hinge", "mode=linear;K=3;n=6;batch=2", "mode=gboost;K=2;n=6;batch=2", "mode=gboost;K=3;n=6;batch=2;loss=s-classnll"] +
+                     ["mode=wlearner;K=2;n=6;T=2;wl=%s" % w for w in ("affine", "stump", "hinge", "dense-table", "dstep-table", "kbest-table", "ksplit-table", "dtree")],
+         "env": {"SBV_PREEMPT": "1", "SBV_RACE": "1"}, "env_tier": {"thorough": {"SBV_PREEMPT": "2"}},
+         "budget": {"quick": {"deadline_s": 100, "max_paths": 400000, "query_s": 10}, "thorough": {"deadline_s": 900, "max_paths": 5000000, "query_s": 30}},
+         "encoded": ["nano::loss_t::{error, value, vgrad} of every registered loss", "nano::solver_t::minimize + do_minimize of every deterministic solver (line-search solvers with their lsearch0 / lsearchk objects, bundle solvers with the inner QP solver)",
+                     "nano::dataset_t::{flatten, select, targets}, generators scalar_identity / sclass_identity", "nano::{targets_iterator_t, flatten_iterator_t, select_iterator_t}::loop (per-thread buffers), cache_flatten / cache_targets",
+                     "nano::linear::function_t::do_vgrad, nano::gboost::{bias_function_t, scale_function_t, grads_function_t} (per-thread accumulators, reduction)", "nano::wlearner_t::{fit, predict} of every weak learner (select_iterator_t loops over the pool)",
+                     "nano::parallel::pool_t (real: constructor, workers, map, section_t, destructor)",
+                     "modelled by the interpreter: std::thread start / join, pthread_mutex_lock / unlock, std::condition_variable::{wait, notify_one, notify_all}, __atomic_futex_unsigned_base::_M_futex_wait_until, __cxa_guard_acquire / release (happens-before edge), pthread_once"]},
+        {"engine": "sbv", "harness": "C18_tune", "sources": ["C18_shared.cpp"], "replay_with": "interpreter",
+         "quick": ["mode=tune;K=2;n=4;folds=2;g=3;dims=2", "mode=tune;K=2;n=4;folds=2;g=3;dims=1"],
+         "thorough": ["mode=tune;K=2;n=4;folds=2;g=3;dims=2", "mode=tune;K=2;n=4;folds=2;g=3;dims=1", "mode=tune;K=3;n=6;folds=3;g=3;dims=2", "mode=tune;K=2;n=4;folds=2;g=3;dims=2;tuner=surrogate", "mode=tune;K=2;n=6;folds=3;g=4;dims=1"],
+         "env": {"SBV_PREEMPT": "1", "SBV_RACE": "1", "SBV_BLOCK_FORKS": "2"}, "env_tier": {"thorough": {"SBV_PREEMPT": "2", "SBV_BLOCK_FORKS": "3"}},
+         "budget": {"quick": {"deadline_s": 130, "max_paths": 400000, "query_s": 10}, "thorough": {"deadline_s": 1200, "max_paths": 5000000, "query_s": 30}},
+         "encoded": ["nano::ml::tune (real: k-fold splitter, local-search / surrogate tuner, own pool_t of K workers, result_t::{add, store, extra, closest_trial, values, optimum_trial})",
+                     "std::any copy / move of the per-(trial, fold) extras (interpreted from the bitcode)", "file loggers of the per-fold fits (native std::ofstream)"]},
     ],
 }
